@@ -28,11 +28,11 @@ Proof. unfold c01_hi. rewrite c01_half_R. reflexivity. Qed.
 
 Lemma c01_mask_false n v : c01_area_mask RO n v = false <-> - /2 - c01_epsR <= v <= IZR n - /2 + c01_epsR.
 Proof.
-  unfold c01_area_mask. rewrite c01_lo_R, c01_hi_R. cbn [ltb RO]. rewrite orb_false_iff, !Rltb_false. tauto.
+  unfold c01_area_mask. rewrite c01_lo_R, c01_hi_R. cbn [ltb isnan RO]. rewrite orb_false_r, orb_false_iff, !Rltb_false. tauto.
 Qed.
 Lemma c01_mask_true n v : c01_area_mask RO n v = true <-> v < - /2 - c01_epsR \/ IZR n - /2 + c01_epsR < v.
 Proof.
-  unfold c01_area_mask. rewrite c01_lo_R, c01_hi_R. cbn [ltb RO]. rewrite orb_true_iff, !Rltb_true. tauto.
+  unfold c01_area_mask. rewrite c01_lo_R, c01_hi_R. cbn [ltb isnan RO]. rewrite orb_false_r, orb_true_iff, !Rltb_true. tauto.
 Qed.
 
 Lemma c01_clip_R n v : c01_clip RO n v = Rmin (Rmax v 0) (IZR (n - 1)).
